@@ -2,7 +2,7 @@
 
 TLC: Constants.tla - Compliant(type, value) over every integer width 1..64 (both signednesses and cast modes), the three
 float formats and bool, with symbolic boundary values s*2^e + o (+1/3) around both ends of every range, the largest
-finite float values +- 1/3, strings of length 0/1/2 and non-ASCII, booleans and sets; SymbolicMatchesExact validates the
+finite float values +- 1/3, strings as sequences of character classes (printable / control ASCII, Latin-1, BMP, combining, astral, lone surrogate) of length 0..2 (and 3 over three classes), booleans and sets; SymbolicMatchesExact validates the
 exponent arithmetic against plain integers up to 24 bits, Monotone across widths.
 Binding A: each (type, value) is rendered as a constant definition with an exact DSDL expression for the value; accepted
 iff Compliant, the stored Constant.value must be exactly the rational (or the character's code), never rounded.
@@ -15,6 +15,11 @@ from . import c02
 
 FMAX = {16: (2 - Fraction(1, 2 ** 10)) * 2 ** 15, 32: (2 - Fraction(1, 2 ** 23)) * 2 ** 127, 64: (2 - Fraction(1, 2 ** 52)) * 2 ** 1023}
 FEXPR = {16: "(2 - 2 ** -10) * 2 ** 15", 32: "(2 - 2 ** -23) * 2 ** 127", 64: "(2 - 2 ** -52) * 2 ** 1023"}
+
+# concrete characters per class of Constants.tla (CharClasses)
+CHARS = {"a": list("AZaz09 ~!#'\"\\"), "c": ["\t", "\x00", "\x7f", "\r", "\n", "\x1b"], "l": ["\u00e9", "\u0080", "\u00ff", "\u00a0"],
+         "w": ["\u0451", "\u4e2d", "\u0100", "\uffff"], "m": ["\u0301", "\u0308", "\u200d"], "x": ["\U0001f600", "\U00010000", "\U0010ffff"],
+         "s": ["\ud800", "\udfff"]}
 
 def type_text(t, rng):
     if t["k"] == "bool":
@@ -32,8 +37,19 @@ def value_text(v, rng):
     if k == "set":
         return "{1, 2}", None
     if k == "str":
-        s = {"": "''", "A": "'A'", "AB": "'AB'", "nonascii": "'\\u00e9'"}[v["s"]]
-        return s, (65 if v["s"] == "A" else None)
+        chars = [rng.choice(CHARS[c]) for c in v["cs"]]
+        q = rng.choice("'\"")
+        body = ""
+        for ch in chars:
+            o = ord(ch)
+            literal_ok = 0x20 <= o < 0xD800 and ch not in (q, "\\") or 0xE000 <= o
+            named = {"\t": "\\t", "\r": "\\r", "\n": "\\n", "'": "\\'", '"': '\\"', "\\": "\\\\"}
+            forms = ([ch] if literal_ok else []) + ([named[ch]] if ch in named else [])
+            forms.append("\\u%04x" % o if o < 0x10000 else "\\U%08x" % o)
+            if o < 0x10000 and rng.random() < 0.3:
+                forms.append("\\U%08X" % o)
+            body += rng.choice(forms)
+        return q + body + q, (ord(chars[0]) if len(chars) == 1 and ord(chars[0]) < 128 else None)
     if k == "fmax":
         x = FMAX[v["fmt"]] + Fraction(v["d"], 3)
         e = FEXPR[v["fmt"]] + ("" if v["d"] == 0 else (" + 1/3" if v["d"] > 0 else " - 1/3"))
@@ -109,7 +125,7 @@ def illegal_types_worker(seed):
 def run(ctx):
     ctx.rule = ("TLC enumerates every constant type (bool, (u)int1..64 in both cast modes, float16/32/64 in both) with ~100 "
                 "symbolic values each: s*2^e + o (+1/3) for e around 0, the type's width and the float16 limit, the largest "
-                "finite value of every float format +- 1/3 in both signs, strings '', 'A', 'AB', non-ASCII, booleans, a set; "
+                "finite value of every float format +- 1/3 in both signs, every string of up to two characters over seven character classes (rendered literally or through \\u / \\U / named escapes, either quote), booleans, a set; "
                 "each pair is rendered with an exact DSDL expression and read; accepted iff Compliant and the stored value is "
                 "the exact rational / code point. Every case is non-trivial; distinct by (type, value)")
     ctx.assumptions = ["TLC's evaluation of the specification", "C04 establishes that the boundary expressions evaluate exactly"]
